@@ -1011,7 +1011,26 @@ class Exec:
         if k == "col":
             return self.col(scopes, e[1], e[2])
         if k == "cmp":
-            return cmp_values(e[1], self.ev(e[2], scopes), self.ev(e[3], scopes))
+            l, r = self.ev(e[2], scopes), self.ev(e[3], scopes)
+            res = cmp_values(e[1], l, r)
+            if e[1] in ("<", "<=", ">", ">=") and {e[2][0], e[3][0]} == {"param", "col"}:
+                p_ = l if e[2][0] == "param" else r
+                if isinstance(p_, SRatio) and p_.floaty and l is not None and r is not None:
+                    # the parameter is a Python float computed as seconds * 1e6: it can be off the exact
+                    # microsecond count by a fraction of a microsecond, so at exact equality with the
+                    # stored cell the comparison may go either way
+                    eq = cmp_values("=", l, r)
+                    key = ("float_edge", e[1], str(eq))
+                    free = E.ENG.declared.get(key)
+                    if free is None:
+                        # deterministic per (cell, parameter value): the same float meets the same cell
+                        free = z3.Bool(E.ENG.fresh_name("float_edge"))
+                        E.ENG.declared[key] = free
+                    E.ENG.noise_used = True
+                    if not isinstance(eq, bool):
+                        E.ENG.noise_sites.append(eq)
+                    res = z3.If(eq, free, res) if not isinstance(eq, bool) else (free if eq else res)
+            return res
         if k == "and":
             return and3(self.ev(e[1], scopes), self.ev(e[2], scopes))
         if k == "or":
